@@ -44,6 +44,7 @@ static sqfs_object_t *id_table_copy(const sqfs_object_t *obj)
 		return NULL;
 	}
 
+	sqfs_object_init(copy, obj->destroy, obj->copy);
 	return (sqfs_object_t *)copy;
 }
 
